@@ -30,8 +30,11 @@
 
     "Outside the model" is explicit: where the Python does something this file
     does not transcribe, the function returns [OutOfFuel] (written
-    [unmodelled]); the correspondence run treats such an answer as a
-    disagreement, so it can never stand in for a real outcome.
+    [unmodelled]); the correspondence run counts such an answer as "no
+    prediction" (it is reported in the evidence), so it can never stand in for
+    a real outcome.  The file follows /repo as of commit c7fc96e (where/reject/
+    find/has use Liquid equality and truthiness, compact treats a missing
+    property as nil, map answers nil for a missing property).
 
     Model file: definitions only.  Proofs: Proofs/ObjAccess_proofs.v. *)
 From Coq Require Import Strings.String Strings.Ascii DecimalString.
@@ -218,10 +221,10 @@ Record ohdr := {
 
 Inductive val :=
 | VNil | VBool (b : bool) | VInt (z : Z) | VStr (s : str)
-| VList (l : list val)                         (* list or tuple *)
+| VList (tup : bool) (l : list val)            (* list (tup = false) or tuple (tup = true) *)
 | VDict (kvs : list (str * val))               (* dict with str keys, insertion ordered *)
 | VUndef                                       (* liquid2.Undefined (the default policy) *)
-| VNull                                        (* the map filter's _NULL *)
+| VNull                                        (* array.py _NULL (no registered filter produces it any more) *)
 | VObj (h : ohdr) (items aitems : list (str * val)) (seq : list val)
        (attrs : list (str * val))
 | VCallable (ret : str)                        (* attribute value: a callable answering [ret] *)
@@ -246,7 +249,7 @@ Definition is_mapping (v : val) : bool :=
 
 Definition is_sequence (v : val) : bool :=
   match v with
-  | VList _ | VStr _ => true
+  | VList _ _ | VStr _ => true
   | VObj h _ _ _ _ => okind_eqb (o_kind h) KSequence
   | _ => false
   end.
@@ -258,9 +261,10 @@ Definition is_loopdrop (v : val) : bool :=
 
 (** hash(v) works (dict lookup / `in dict`): list, dict and Mapping subclasses
     (Mapping defines __eq__, so __hash__ is None) are unhashable. *)
-Definition hashable (v : val) : bool :=
+Fixpoint hashable (v : val) : bool :=
   match v with
-  | VList _ | VDict _ => false
+  | VList false _ | VDict _ => false
+  | VList true l => forallb hashable l        (* a tuple hashes its elements *)
   | VObj h _ _ _ _ => negb (okind_eqb (o_kind h) KMapping)
   | _ => true
   end.
@@ -268,7 +272,7 @@ Definition hashable (v : val) : bool :=
 (** hasattr(v, "__getitem__") *)
 Definition has_getitem (v : val) : bool :=
   match v with
-  | VList _ | VStr _ | VDict _ | VUndef => true
+  | VList _ _ | VStr _ | VDict _ | VUndef => true
   | VObj h _ _ _ _ => o_hg h
   | _ => false
   end.
@@ -305,7 +309,7 @@ Definition lookup_key (k : val) (kvs : list (str * val)) : res val :=
     object defines it and async = true (context.py get_item_async._get_item). *)
 Definition py_getitem (async : bool) (o k : val) : res val :=
   match o with
-  | VList l =>
+  | VList _ l =>
       match as_index k with Some i => py_index l i | None => PyExc TypeError end
   | VStr s =>
       match as_index k with
@@ -330,7 +334,7 @@ Definition py_getitem (async : bool) (o k : val) : res val :=
 (** len(obj) for Sized values *)
 Definition py_len (v : val) : res Z :=
   match v with
-  | VList l => Ok (zlen l)
+  | VList _ l => Ok (zlen l)
   | VStr s => Ok (zlen s)
   | VDict kvs => Ok (zlen kvs)
   | VUndef => Ok 0%Z
@@ -350,7 +354,7 @@ Definition py_truthy (v : val) : bool :=
   | VBool b => b
   | VInt z => negb (Z.eqb z 0)
   | VStr s => negb (Nat.eqb (List.length s) 0)
-  | VList l => negb (Nat.eqb (List.length l) 0)
+  | VList _ l => negb (Nat.eqb (List.length l) 0)
   | VDict kvs => negb (Nat.eqb (List.length kvs) 0)
   | VUndef => false
   | VNull => true
@@ -386,6 +390,12 @@ Fixpoint mapM {A B} (f : A -> res B) (l : list A) : res (list B) :=
 Definition repr_safe_char (c : N) : bool :=
   ((32 <=? c) && (c <=? 126) && negb (c =? 39) && negb (c =? 92))%N.
 
+(** repr of a list / tuple from the reprs of its elements: [a, b], (a, b), (a,). *)
+Definition repr_brackets (tup : bool) (rs : list str) : str :=
+  if tup then
+    lit "(" ++ join_str (lit ", ") rs ++ (match rs with [_] => lit "," | _ => [] end) ++ lit ")"
+  else lit "[" ++ join_str (lit ", ") rs ++ lit "]".
+
 (** repr(v): what str(dict) / str(list) show of their elements. *)
 Fixpoint py_repr (v : val) : res str :=
   match v with
@@ -393,13 +403,13 @@ Fixpoint py_repr (v : val) : res str :=
   | VBool b => Ok (if b then lit "True" else lit "False")
   | VInt z => Ok (z_to_str z)
   | VStr s => if forallb repr_safe_char s then Ok (lit "'" ++ s ++ lit "'") else unmodelled
-  | VList l =>
+  | VList t l =>
       do rs <- (fix go (l : list val) : res (list str) :=
                   match l with
                   | [] => Ok []
                   | x :: l' => do r <- py_repr x;; do rs <- go l';; Ok (r :: rs)
                   end) l;;
-      Ok (lit "[" ++ join_str (lit ", ") rs ++ lit "]")
+      Ok (repr_brackets t rs)
   | VDict kvs =>
       do rs <- (fix go (l : list (str * val)) : res (list str) :=
                   match l with
@@ -418,7 +428,7 @@ Fixpoint py_repr (v : val) : res str :=
 (** iter(obj) for a Sequence / Mapping object: its items in order. *)
 Definition seq_items (v : val) : list val :=
   match v with
-  | VList l => l
+  | VList _ l => l
   | VStr s => List.map (fun c => VStr [c]) s
   | VObj _ _ _ seq _ => seq
   | _ => []
@@ -431,7 +441,7 @@ Fixpoint to_liquid_string (v : val) : res str :=
   | VStr s => Ok s
   | VBool b => Ok (if b then lit "true" else lit "false")
   | VNil => Ok []
-  | VList l =>                                         (* isinstance(val, Sequence) *)
+  | VList _ l =>                                       (* isinstance(val, Sequence) *)
       rmap concat_str
         ((fix go (l : list val) : res (list str) :=
             match l with
@@ -461,7 +471,7 @@ Definition py_str (v : val) : res str :=
   | VNil => Ok (lit "None")
   | VBool b => Ok (if b then lit "True" else lit "False")
   | VInt z => Ok (z_to_str z)
-  | VList _ | VDict _ => py_repr v
+  | VList _ _ | VDict _ => py_repr v
   | VUndef | VNull => Ok []
   | VObj h _ _ _ _ => Ok (o_str h)
   | _ => unmodelled
@@ -503,9 +513,10 @@ Fixpoint py_eq (a b : val) : res bool :=
           | _ => false
           end)
   | VStr x => Ok (match b with VStr y => str_eqb x y | _ => false end)
-  | VList x =>
+  | VList t x =>
       match b with
-      | VList y =>
+      | VList t' y =>
+          if negb (Bool.eqb t t') then Ok false else
           (fix list_eq (x y : list val) : res bool :=
              match x, y with
              | [], [] => Ok true
@@ -612,7 +623,7 @@ Definition liq_lt (left right : val) : res bool :=
 Definition liq_contains (left right : val) : res bool :=
   match left with
   | VStr s => do r <- py_str right;; Ok (is_infix r s)
-  | VList l => py_list_contains l right
+  | VList _ l => py_list_contains l right
   | VDict kvs =>
       if hashable right then
         Ok (match right with VStr k => match assoc k kvs with Some _ => true | None => false end
@@ -622,8 +633,12 @@ Definition liq_contains (left right : val) : res bool :=
   | VObj h items _ seq _ =>
       match o_kind h with
       | KPlain => LErr LiquidTypeError None
-      | KMapping =>                                   (* Mapping.__contains__: try self[key] *)
-          Ok (match lookup_key right items with Ok _ => true | _ => false end)
+      | KMapping =>                 (* Mapping.__contains__: try self[key] except KeyError *)
+          match py_getitem false left right with
+          | Ok _ => Ok true
+          | PyExc KeyError => Ok false
+          | r => rmap (fun _ => false) r
+          end
       | KSequence => py_list_contains seq right      (* Sequence.__contains__ *)
       end
   | _ => LErr LiquidTypeError None
@@ -652,8 +667,8 @@ Definition get_item (async : bool) (obj key : val) : res val :=
       (if is_mapping obj && py_truthy obj then
          (* next(itertools.islice(obj.items(), 1)) *)
          match obj with
-         | VDict ((k, v) :: _) => Ok (VList [VStr k; v])
-         | VObj h ((k, v) :: _) _ _ _ => if o_loop h then unmodelled else Ok (VList [VStr k; v])
+         | VDict ((k, v) :: _) => Ok (VList true [VStr k; v])
+         | VObj h ((k, v) :: _) _ _ _ => if o_loop h then unmodelled else Ok (VList true [VStr k; v])
          | _ => unmodelled
          end
        else if is_sequence obj then py_getitem false obj (VInt 0)
@@ -801,7 +816,7 @@ Record fcall := { f_name : fname; f_args : list farg }.
 Fixpoint flatten (level : nat) (l : list val) : list val :=
   match level with
   | O => l
-  | S n => flat_map (fun v => match v with VList l' => flatten n l' | _ => [v] end) l
+  | S n => flat_map (fun v => match v with VList _ l' => flatten n l' | _ => [v] end) l
   end.
 
 (** filter.py sequence_arg *)
@@ -809,7 +824,7 @@ Definition sequence_arg (v : val) : list val :=
   match v with
   | VUndef => []
   | VStr s => List.map (fun c => VStr [c]) s
-  | VList l => flatten 5 l
+  | VList _ l => flatten 5 l
   | VObj h _ _ seq _ =>
       if okind_eqb (o_kind h) KSequence then flatten 5 seq else [v]
   | _ => [v]
@@ -822,6 +837,13 @@ Definition f_getitem (obj key default : val) : res val :=
   | Ok v => Ok v
   | PyExc KeyError | PyExc IndexError => Ok default
   | PyExc TypeError => if has_getitem obj then Ok default else PyExc TypeError
+  | r => r
+  end.
+
+(** filtering_filters.py _property (compact): obj[key], a missing key is None. *)
+Definition f_property (obj key : val) : res val :=
+  match py_getitem false obj key with
+  | PyExc KeyError => Ok VNil
   | r => r
   end.
 
@@ -841,12 +863,6 @@ Definition find_getitem (obj key : val) : res val :=
       end
   | r => r
   end.
-
-(** [x not in (False, None)] *)
-Definition not_false_none (x : val) : res bool :=
-  do a <- py_eq x (VBool false);;
-  do b <- py_eq x VNil;;
-  Ok (negb (a || b)).
 
 Definition is_undef (v : val) : bool := match v with VUndef => true | _ => false end.
 Definition is_nil (v : val) : bool := match v with VNil => true | _ => false end.
@@ -928,7 +944,7 @@ Definition py_sorted (l : list (val * val)) : res (list val) :=
   | [] | [_] => Ok (List.map snd l)
   | _ =>
       if all_class KCInt l || all_class KCStr l then Ok (List.map snd (sort_pairs l))
-      else if existsb (fun p => match fst p with VList _ => true | _ => false end) l
+      else if existsb (fun p => match fst p with VList _ _ => true | _ => false end) l
       then unmodelled
       else PyExc TypeError
   end.
@@ -1057,7 +1073,7 @@ Definition default_core (left d : val) : res val :=
       do b <- py_eq (VBool false) o;;
       if a || b then Ok d
       else match o with
-           | VStr [] | VList [] | VDict [] => Ok d
+           | VStr [] | VList false [] | VDict [] => Ok d
            | _ => Ok left
            end
   end.
@@ -1069,83 +1085,83 @@ Definition apply_filter (async : bool) (c : ctx) (f : fcall) (left : val) : res 
   (* map_filter.py MapFilter.__call__ *)
   | FMap, [ALam ps body] =>
       do rs <- lambda_map c ps body (sequence_arg left) 0;;
-      Ok (VList (List.map (fun r => if is_undef r then VNull else r) rs))
+      Ok (VList false (List.map (fun r => if is_undef r then VNil else r) rs))
   | FMap, [APos e] =>
       do k <- eval_pexpr async c e;;
       do ks <- py_str k;;
-      rmap VList (mapM (fun itm => f_getitem itm (VStr ks) VNull) (sequence_arg left))
+      rmap (VList false) (mapM (fun itm => f_getitem itm (VStr ks) VNil) (sequence_arg left))
   (* filtering_filters.py WhereFilter / RejectFilter *)
   | FWhere, [ALam ps body] =>
       let l := sequence_arg left in
-      do rs <- lambda_map c ps body l 0;; Ok (VList (select_by true l rs))
+      do rs <- lambda_map c ps body l 0;; Ok (VList false (select_by true l rs))
   | FReject, [ALam ps body] =>
       let l := sequence_arg left in
-      do rs <- lambda_map c ps body l 0;; Ok (VList (select_by false l rs))
+      do rs <- lambda_map c ps body l 0;; Ok (VList false (select_by false l rs))
   | FWhere, [APos e] =>
       do k <- eval_pexpr async c e;;
-      rmap VList (filterM (fun itm => do x <- f_getitem itm k VNil;; not_false_none x)
+      rmap (VList false) (filterM (fun itm => do x <- f_getitem itm k VNil;; Ok (is_truthy x))
                           (sequence_arg left))
   | FReject, [APos e] =>
       do k <- eval_pexpr async c e;;
-      rmap VList (filterM (fun itm => do x <- f_getitem itm k VNil;; rmap negb (not_false_none x))
+      rmap (VList false) (filterM (fun itm => do x <- f_getitem itm k VNil;; Ok (negb (is_truthy x)))
                           (sequence_arg left))
   | FWhere, [APos e; APos e2] =>
       do k <- eval_pexpr async c e;;
       do v <- eval_pexpr async c e2;;
       if is_nil v || is_undef v then
-        rmap VList (filterM (fun itm => do x <- f_getitem itm k VNil;; not_false_none x)
+        rmap (VList false) (filterM (fun itm => do x <- f_getitem itm k VNil;; Ok (is_truthy x))
                             (sequence_arg left))
       else
-        rmap VList (filterM (fun itm => do x <- f_getitem itm k VNil;; py_eq x v)
+        rmap (VList false) (filterM (fun itm => do x <- f_getitem itm k VNil;; liq_eq x v)
                             (sequence_arg left))
   | FReject, [APos e; APos e2] =>
       do k <- eval_pexpr async c e;;
       do v <- eval_pexpr async c e2;;
       if is_nil v || is_undef v then
-        rmap VList (filterM (fun itm => do x <- f_getitem itm k VNil;; rmap negb (not_false_none x))
+        rmap (VList false) (filterM (fun itm => do x <- f_getitem itm k VNil;; Ok (negb (is_truthy x)))
                             (sequence_arg left))
       else
-        rmap VList (filterM (fun itm => do x <- f_getitem itm k VNil;; rmap negb (py_eq x v))
+        rmap (VList false) (filterM (fun itm => do x <- f_getitem itm k VNil;; rmap negb (liq_eq x v))
                             (sequence_arg left))
   (* filtering_filters.py CompactFilter *)
   | FCompact, [] =>
-      Ok (VList (List.filter (fun itm => negb (is_nil itm)) (sequence_arg left)))
+      Ok (VList false (List.filter (fun itm => negb (is_nil itm)) (sequence_arg left)))
   | FCompact, [ALam ps body] =>
       let l := sequence_arg left in
       do rs <- lambda_map c ps body l 0;;
-      Ok (VList (List.map fst
+      Ok (VList false (List.map fst
                    (List.filter (fun p => negb (is_undef (snd p)) && negb (is_nil (snd p)))
                       (combine l rs))))
   | FCompact, [APos e] =>
       do k <- eval_pexpr async c e;;
-      if is_nil k then Ok (VList (List.filter (fun itm => negb (is_nil itm)) (sequence_arg left)))
-      else rmap VList (filterM (fun itm => do x <- py_getitem false itm k;; Ok (negb (is_nil x)))
+      if is_nil k then Ok (VList false (List.filter (fun itm => negb (is_nil itm)) (sequence_arg left)))
+      else rmap (VList false) (filterM (fun itm => do x <- f_property itm k;; Ok (negb (is_nil x)))
                                (sequence_arg left))
   (* uniq_filter.py UniqFilter *)
-  | FUniq, [] => rmap VList (uniq_plain (sequence_arg left))
+  | FUniq, [] => rmap (VList false) (uniq_plain (sequence_arg left))
   | FUniq, [ALam ps body] =>
       let l := sequence_arg left in
       do rs <- lambda_map c ps body l 0;;
-      rmap VList (uniq_keys (combine l (List.map (fun r => if is_undef r then None else Some r) rs))
+      rmap (VList false) (uniq_keys (combine l (List.map (fun r => if is_undef r then None else Some r) rs))
                             false [])
   | FUniq, [APos e] =>
       do k <- eval_pexpr async c e;;
-      if is_nil k then rmap VList (uniq_plain (sequence_arg left))
-      else rmap VList (uniq_prop k (sequence_arg left) false [])
+      if is_nil k then rmap (VList false) (uniq_plain (sequence_arg left))
+      else rmap (VList false) (uniq_prop k (sequence_arg left) false [])
   (* sorting_filters.py SortFilter *)
   | FSort, [] =>
-      rmap VList (py_sorted (List.map (fun x => (x, x)) (sequence_arg left)))
+      rmap (VList false) (py_sorted (List.map (fun x => (x, x)) (sequence_arg left)))
   | FSort, [ALam ps body] =>
       let l := sequence_arg left in
       do rs <- lambda_map c ps body l 0;;
-      rmap VList (py_sorted (combine (List.map (fun r => if is_undef r then max_ch else r) rs) l))
+      rmap (VList false) (py_sorted (combine (List.map (fun r => if is_undef r then max_ch else r) rs) l))
   | FSort, [APos e] =>
       do k <- eval_pexpr async c e;;
       if py_truthy k then
         do ks <- py_str k;;
         do keys <- mapM (fun itm => f_getitem itm (VStr ks) max_ch) (sequence_arg left);;
-        rmap VList (py_sorted (combine keys (sequence_arg left)))
-      else rmap VList (py_sorted (List.map (fun x => (x, x)) (sequence_arg left)))
+        rmap (VList false) (py_sorted (combine keys (sequence_arg left)))
+      else rmap (VList false) (py_sorted (List.map (fun x => (x, x)) (sequence_arg left)))
   (* sum_filter.py SumFilter *)
   | FSum, [] =>
       do zs <- mapM decimal_arg0 (sequence_arg left);;
@@ -1174,40 +1190,37 @@ Definition apply_filter (async : bool) (c : ctx) (f : fcall) (left : val) : res 
       Ok (VBool (match r with Some _ => true | None => false end))
   | FFind, [APos e] =>
       do k <- eval_pexpr async c e;;
-      do r <- findM (fun itm => do x <- find_getitem itm k;; not_false_none x) (sequence_arg left) 0;;
+      do r <- findM (fun itm => do x <- find_getitem itm k;; Ok (is_truthy x)) (sequence_arg left) 0;;
       Ok (match r with Some (_, x) => x | None => VNil end)
   | FFind, [APos e; APos e2] =>
       do k <- eval_pexpr async c e;;
       do v <- eval_pexpr async c e2;;
       do r <- findM (fun itm => do x <- find_getitem itm k;;
-                                if is_nil v || is_undef v then not_false_none x else py_eq x v)
+                                if is_nil v || is_undef v then Ok (is_truthy x) else liq_eq x v)
                     (sequence_arg left) 0;;
       Ok (match r with Some (_, x) => x | None => VNil end)
   | FFindIndex, [APos e] =>
       do k <- eval_pexpr async c e;;
-      do r <- findM (fun itm => do x <- find_getitem itm k;; not_false_none x) (sequence_arg left) 0;;
+      do r <- findM (fun itm => do x <- find_getitem itm k;; Ok (is_truthy x)) (sequence_arg left) 0;;
       Ok (match r with Some (i, _) => VInt i | None => VNil end)
   | FFindIndex, [APos e; APos e2] =>
       do k <- eval_pexpr async c e;;
       do v <- eval_pexpr async c e2;;
       do r <- findM (fun itm => do x <- find_getitem itm k;;
-                                if is_nil v || is_undef v then not_false_none x else py_eq x v)
+                                if is_nil v || is_undef v then Ok (is_truthy x) else liq_eq x v)
                     (sequence_arg left) 0;;
       Ok (match r with Some (i, _) => VInt i | None => VNil end)
-  (* has: any(itm for itm in left if pred(itm)) — the truth of the *item* *)
+  (* has: any(pred(itm) for itm in left) *)
   | FHas, [APos e] =>
       do k <- eval_pexpr async c e;;
-      do r <- findM (fun itm => do x <- find_getitem itm k;;
-                                do b <- not_false_none x;; Ok (b && py_truthy itm))
+      do r <- findM (fun itm => do x <- find_getitem itm k;; Ok (is_truthy x))
                     (sequence_arg left) 0;;
       Ok (VBool (match r with Some _ => true | None => false end))
   | FHas, [APos e; APos e2] =>
       do k <- eval_pexpr async c e;;
       do v <- eval_pexpr async c e2;;
       do r <- findM (fun itm => do x <- find_getitem itm k;;
-                                do b <- (if is_nil v || is_undef v then not_false_none x
-                                         else py_eq x v);;
-                                Ok (b && py_truthy itm))
+                                if is_nil v || is_undef v then Ok (is_truthy x) else liq_eq x v)
                     (sequence_arg left) 0;;
       Ok (VBool (match r with Some _ => true | None => false end))
   (* array.py first / last *)
@@ -1215,7 +1228,7 @@ Definition apply_filter (async : bool) (c : ctx) (f : fcall) (left : val) : res 
       match left with
       | VStr _ => Ok VNil
       | VDict [] => Ok VNil
-      | VDict ((k, v) :: _) => Ok (VList [VStr k; v])
+      | VDict ((k, v) :: _) => Ok (VList true [VStr k; v])
       | _ => match py_getitem false left (VInt 0) with
              | Ok v => Ok v
              | PyExc TypeError | PyExc KeyError | PyExc IndexError => Ok VNil
@@ -1293,8 +1306,8 @@ Definition to_iter (v : val) : res (list val) :=
   if is_loopdrop v then unmodelled
   else if is_mapping v then
     match v with
-    | VDict kvs => Ok (List.map (fun kv => VList [VStr (fst kv); snd kv]) kvs)
-    | VObj _ items _ _ _ => Ok (List.map (fun kv => VList [VStr (fst kv); snd kv]) items)
+    | VDict kvs => Ok (List.map (fun kv => VList true [VStr (fst kv); snd kv]) kvs)
+    | VObj _ items _ _ _ => Ok (List.map (fun kv => VList true [VStr (fst kv); snd kv]) items)
     | _ => Ok []                                       (* Undefined *)
     end
   else if is_sequence v then Ok (seq_items v)
@@ -1389,7 +1402,7 @@ Definition map_snd {A B} (f : A -> B) (l : list (str * A)) : list (str * B) :=
     whose name [keep] rejects. *)
 Fixpoint erase_with (keep : str -> bool) (v : val) : val :=
   match v with
-  | VList l => VList (List.map (erase_with keep) l)
+  | VList t l => VList t (List.map (erase_with keep) l)
   | VDict kvs => VDict (List.map (fun kv => (fst kv, erase_with keep (snd kv))) kvs)
   | VObj h items aitems seq attrs =>
       VObj h (List.map (fun kv => (fst kv, erase_with keep (snd kv))) items)
@@ -1417,7 +1430,7 @@ Definition proto_eq (d d' : ns) : Prop := map_snd erase_all d = map_snd erase_al
 (** No object anywhere in the data has an attribute with a hook name. *)
 Fixpoint hook_free (v : val) : bool :=
   match v with
-  | VList l => forallb hook_free l
+  | VList _ l => forallb hook_free l
   | VDict kvs => forallb (fun kv => hook_free (snd kv)) kvs
   | VObj _ items aitems seq attrs =>
       forallb (fun kv => hook_free (snd kv)) items
